@@ -229,7 +229,7 @@ impl<const N: u32> PxE2<{ N }> {
                 if reg_z < N {
                     //remove hidden bits
                     frac64_z &= 0x_3FFF_FFFF_FFFF_FFFF;
-                    frac_z = (frac64_z >> (reg_z + 34)) as u32; //frac32Z>>16;
+                    frac_z = crate::u64_zero_shr(frac64_z, reg_z + 34) as u32; //frac32Z>>16;
 
                     if reg_z + 4 <= N {
                         bit_n_plus_one =
@@ -373,9 +373,9 @@ impl<const N: u32> PxE2<{ N }> {
             // Assemble the result and return it.
             let mut u_a = ui_z | (exp_z << (27 - shift)) | ((frac64_z >> (5 + shift)) as u32);
             //Check if rounding bits in regime or exp and clean off unwanted bits
-            if (((0x_8000_0000_u32 >> N) & u_a) != 0)
+            if ((crate::u32_zero_shr(0x_8000_0000, N) & u_a) != 0)
                 && ((((0x_8000_0000_u32 >> (N - 1)) & u_a) != 0)
-                    || (((0x_7FFF_FFFF_u32 >> N) & u_a) != 0))
+                    || ((crate::u32_zero_shr(0x_7FFF_FFFF, N) & u_a) != 0))
             {
                 u_a = (u_a & Self::mask()) + (0x_8000_0000_u32 >> (N - 1));
             }
